@@ -278,7 +278,14 @@ func runC14(ctx *Ctx) {
 	corrGate := newCorr("oggate")
 	corrIE := newCorr("iereader")
 	defer corrIE.run(ctx)
+	corrOG := newCorr("opengraph")
+	defer corrOG.run(ctx)
 	if ctx.Replay == "" {
+		for i := 0; i < ctx.pick(800, 30000); i++ {
+			r := newRng(ctx.Seed, fmt.Sprintf("C14/og/%d", i))
+			src := ogPage(r, newPageGen(r))
+			addOpenGraphCase(corrOG, rep, src, map[string]interface{}{"html": src})
+		}
 		for i := 0; i < ctx.pick(600, 20000); i++ {
 			r := newRng(ctx.Seed, fmt.Sprintf("C14/ie/%d", i))
 			src := iePage(r, newPageGen(r))
@@ -297,6 +304,7 @@ func runC14(ctx *Ctx) {
 		}
 		corr.add(sb.String(), showInfo(info), replay)
 		addIEReaderCase(corrIE, rep, src, replay)
+		addOpenGraphCase(corrOG, rep, src, replay)
 		// the property, on the public result
 		res, err := distiller.Apply(d.Root, &distiller.Options{SkipPagination: true})
 		if err != nil {
